@@ -264,8 +264,9 @@ pub fn run(tier: Tier) -> i32 {
         s
     };
     scns.push(mk("C06/driver/bind+search[E]/one|all", vec![ItemKind::E], vec![NetStep::One, NetStep::All]));
-    scns.push(mk("C06/driver/bind+search[E,R]/one|frame", vec![ItemKind::E, ItemKind::R], vec![NetStep::One, NetStep::Frame]));
+    scns.push(mk("C06/driver/bind+search[R]/one|frame", vec![ItemKind::R], vec![NetStep::One, NetStep::Frame]));
     if tier == Tier::Thorough {
+        scns.push(mk("C06/driver/bind+search[E,R]/one|frame", vec![ItemKind::E, ItemKind::R], vec![NetStep::One, NetStep::Frame]));
         scns.push(mk("C06/driver/bind+search[E,I,E]/one|frame|all", vec![ItemKind::E, ItemKind::I, ItemKind::E], vec![NetStep::One, NetStep::Frame, NetStep::All]));
     }
     let t = crate::e1::explore_all(&rep, scns, false);
